@@ -226,7 +226,17 @@ def backward_walk(ctx, crate, crs, tag):
         pushes = [(i, t) for i, t in a.calls() if t.get("f") and t["f"]["name"] == "push"]
         ok = False
         for c in cs:
-            if c.kind == "bool" and c.src and c.src.get("k") == "call" and c.src["t"]["f"]["name"] == "contains":
+            memb = c.kind == "bool" and c.src and c.src.get("k") == "call" and c.src["t"]["f"]["name"] in ("contains", "any")
+            if memb and c.src["t"]["f"]["name"] == "any":
+                # `iter().any(|&id| id == clause_id)`: the closure is an equality test
+                memb = False
+                cd = a.origin(c.src["t"]["args"][1]) if len(c.src["t"]["args"]) > 1 else {"k": "?"}
+                if cd["k"] == "rvalue" and cd["r"].get("ak") == "closure":
+                    cb = crate.by_path.get(cd["r"]["def"])
+                    if cb is not None:
+                        memb = any(t2.get("f") and t2["f"]["name"] == "eq" for _, t2 in cb.calls()) or \
+                            any(s2["r"]["k"] == "bin" and s2["r"]["op"] == "Eq" for _, _, s2 in cb.assigns())
+            if memb:
                 # Not(contains) -> push on the `not contained` edge
                 if pushes and q.edge_dominates(a, c.bb, c.target(False), pushes[0][0]):
                     d = a.origin(pushes[0][1]["args"][1])
